@@ -31,6 +31,7 @@ type vfC14Case struct {
 	ccv       bool
 	revsLimit uint32
 	known13   bool
+	knownPromo bool
 
 	contents [][]byte
 	docIDs   []string
@@ -42,7 +43,7 @@ type vfC14Case struct {
 	nontrivial bool
 	classes    map[string]bool
 	writesOK   int
-	excluded   int // generated writes left out because of the listed finding
+	excluded   []string // generated writes left out because of a listed finding (signature each)
 }
 
 func (c *vfC14Case) render() string { return strings.Join(c.ops, "; ") }
@@ -447,37 +448,62 @@ func (c *vfC14Case) predictRevs(d *vfC14Doc, w *vfC14Write) ([]string, error) {
 	return out, nil
 }
 
-// hits13 reports whether applying w on model state d has the shape of known finding 13: the new
-// revision is not the document's winner after the write, and attachments are involved (on the new
-// revision, on the winner before or on the winner after the write).
-func (c *vfC14Case) hits13(d *vfC14Doc, w *vfC14Write) bool {
+// shapes reports which listed-finding shapes applying w on model state d has.
+//
+//   - s13 (item 13): the new revision does not become the document's current revision and the current
+//     revision stays what it was, while the new or the current revision carries attachments (the new
+//     revision's attachment map is stamped on the current revision; the new revision keeps none).
+//   - sPromo: the write makes ANOTHER existing leaf the current revision (the current branch is
+//     tombstoned) and that leaf carries attachments, with the obsolete-attachment sweep on.
+func (c *vfC14Case) shapes(d *vfC14Doc, w *vfC14Write) (s13, sPromo bool) {
 	revs, err := c.predictRevs(d, w)
 	if err != nil {
-		return false
+		return false, false
 	}
 	for _, rev := range revs {
-		if c.hits13As(d, w, rev) {
-			return true
+		sim := d.clone()
+		pre := sim.winner()
+		r, err := sim.apply(w, rev)
+		if err != nil {
+			continue
+		}
+		post := sim.winner()
+		if post == nil || post.id == r.id || pre == nil {
+			continue
+		}
+		if len(r.atts) > 0 {
+			s13 = true
+		}
+		if post.id == pre.id {
+			if len(post.atts) > 0 {
+				s13 = true
+			}
+		} else if len(post.atts) > 0 && !c.ccv {
+			sPromo = true
 		}
 	}
-	return false
+	return s13, sPromo
 }
 
-func (c *vfC14Case) hits13As(d *vfC14Doc, w *vfC14Write, rev string) bool {
-	sim := d.clone()
-	pre := sim.winner()
-	r, err := sim.apply(w, rev)
-	if err != nil {
-		return false
+// shapesOfStep evaluates a (racing write, write) pair: a sound over-approximation - the write is
+// judged on the state with and without the racing write accepted.
+func (c *vfC14Case) shapesOfStep(main, hook *vfC14Write) (s13, sPromo bool) {
+	s13, sPromo = c.shapes(c.docs[main.doc], main)
+	if hook == nil {
+		return
 	}
-	post := sim.winner()
-	if post == nil || post.id == r.id {
-		return false
+	a, b := c.shapes(c.docs[hook.doc], hook)
+	s13, sPromo = s13 || a, sPromo || b
+	if hook.doc == main.doc {
+		sim := c.docs[hook.doc].clone()
+		if rev, err := c.predictRev(sim, hook); err == nil {
+			if _, err := sim.apply(hook, rev); err == nil {
+				a, b = c.shapes(sim, main)
+				s13, sPromo = s13 || a, sPromo || b
+			}
+		}
 	}
-	if len(r.atts) > 0 || len(post.atts) > 0 {
-		return true
-	}
-	return pre != nil && len(pre.atts) > 0
+	return
 }
 
 // stepWrite: mode 0 = plain write, 1 = the document write fails its first compare-and-swap (retry),
@@ -500,28 +526,25 @@ func (c *vfC14Case) stepWrite(rt *rapid.T, mode int) {
 			}
 		}
 	}
-	if c.known13 {
-		// keep the known shape out by construction (sound over-approximation: with or without the racing
-		// write having been accepted)
-		hit := c.hits13(c.docs[main.doc], main)
-		if hook != nil {
-			if c.hits13(c.docs[hook.doc], hook) {
-				hit = true
-			} else if hook.doc == main.doc {
-				sim := c.docs[hook.doc].clone()
-				if rev, err := c.predictRev(sim, hook); err == nil {
-					if _, err := sim.apply(hook, rev); err == nil && c.hits13(sim, main) {
-						hit = true
-					}
-				}
-			}
-		}
-		if hit {
-			c.ops = append(c.ops, "excluded("+vfC14Sig13+")")
-			c.class("excluded-13")
-			c.excluded++
+	// listed findings are kept out by construction (and only while they are listed)
+	s13, sPromo := c.shapesOfStep(main, hook)
+	for _, x := range []struct {
+		hit   bool
+		known bool
+		sig   string
+	}{{s13, c.known13, vfC14Sig13}, {sPromo, c.knownPromo, vfC14SigPromo}} {
+		if x.hit && x.known {
+			c.ops = append(c.ops, "excluded("+x.sig+")")
+			c.class("excluded:" + x.sig)
+			c.excluded = append(c.excluded, x.sig)
 			return
 		}
+	}
+	if s13 {
+		c.class("shape:new-revision-loses-with-attachments-involved")
+	}
+	if sPromo {
+		c.class("shape:tombstone-promotes-leaf-with-attachments")
 	}
 	pm := c.prepare(main)
 	var ph *vfC14Prepared
@@ -811,6 +834,7 @@ func TestVerif_C14_Lifetime(t *testing.T) {
 	rec := kit.New(vfC14ID, test)
 	defer rec.Flush()
 	known13 := kit.Known(vfC14ID, vfC14Sig13)
+	knownPromo := kit.Known(vfC14ID, vfC14SigPromo)
 	rapid.Check(t, func(rt *rapid.T) {
 		conflicts := rapid.Bool().Draw(rt, "allow_conflicts")
 		ccv := rapid.Bool().Draw(rt, "ccv")
@@ -823,7 +847,7 @@ func TestVerif_C14_Lifetime(t *testing.T) {
 		}
 		c := vfC14OpenCase(t, rt, test, conflicts, ccv, revsLimit)
 		defer c.env.Close()
-		c.known13 = known13
+		c.known13, c.knownPromo = known13, knownPromo
 		rt.Repeat(map[string]func(*rapid.T){
 			"write":      func(rt *rapid.T) { c.stepWrite(rt, 0) },
 			"write2":     func(rt *rapid.T) { c.stepWrite(rt, 0) },
@@ -837,8 +861,8 @@ func TestVerif_C14_Lifetime(t *testing.T) {
 				}
 			},
 		})
-		for i := 0; i < c.excluded; i++ {
-			rec.Excluded(vfC14Sig13)
+		for _, sig := range c.excluded {
+			rec.Excluded(sig)
 		}
 		classes := []string{fmt.Sprintf("ccv=%v", ccv), fmt.Sprintf("allow_conflicts=%v", conflicts)}
 		if revsLimit <= 5 {
